@@ -68,6 +68,9 @@ type fnSpec struct {
 	natListTypes map[string]bool   // element types of slices whose elements the spec represents by numbers (functional options: each constructor is an oracle with a "#n" result)
 	inlineClosures bool            // local procedures (function literals without results or returns, bound to a name) are expanded where they are called (see expandClosures)
 	extConsts    map[string]string // constants of package constants the function names -> their value (checked against constants/const.go)
+	builder      bool              // a method of a fluent builder: it returns its receiver (the chain goes on with the state it leaves); fields below the builder's protobuf are assigned in place; the protobuf is handed out only as proto.Clone of it
+	recvName     string            // (filled while translating) the receiver's name
+	constMaps    map[string]string // package-level map literals the function looks keys up in -> the Lean function generated from the literal
 }
 
 func (f *fnSpec) isState(r string) bool {
@@ -1227,4 +1230,115 @@ func init() {
 	specs = append(specs, ribRefCountSpecs...)
 	specs = append(specs, chkErrSpecs...)
 	specs = append(specs, ribRegistrySpecs...)
+	specs = append(specs, fluentBuilderSpecs...)
 }
+
+// ---- the fluent builders (fluent/fluent.go)
+//
+// A builder is a Go struct holding a protobuf under construction (`pb`, allocated with its
+// payload by the constructor and never replaced), the network instance and an optional explicit
+// election id. Each `With…`/`Add…` method is translated as a function on that state; `OpProto`
+// and `EntryProto` as functions of it. The methods return their receiver: the next call of the
+// chain works on the state this one leaves.
+
+var builderTypeMap = map[string]string{
+	"wpb.UintValue": "UintValue", "wpb.StringValue": "StringValue", "wpb.BytesValue": "BytesValue",
+	"AFTOperation": "AFTOperationB", "AFTEntry": "AFTEntryB",
+	"aftpb.Afts_LabelEntry_PoppedMplsLabelStackUnion": "PoppedU",
+	"aftpb.Afts_NextHopGroup_NextHopKey": "NhgNhKeyB", "aftpb.Afts_NextHopGroup_NextHop": "NhgNhB",
+	"aftpb.Afts_Ipv4EntryKey": "Ipv4KeyB", "aftpb.Afts_Ipv4Entry": "TopEntryB", "aftpb.Afts_Ipv6EntryKey": "Ipv6KeyB", "aftpb.Afts_Ipv6Entry": "TopEntryB",
+	"aftpb.Afts_LabelEntryKey": "LabelKeyB", "aftpb.Afts_LabelEntry": "LabelEntryB", "aftpb.Afts_NextHopGroupKey": "NhgKeyB", "aftpb.Afts_NextHopGroup": "NhgPayloadB",
+}
+
+func entryBuilderState(recv, schema string) []stateField {
+	return []stateField{
+		{goExpr: recv + ".pb", lean: "pb", kd: kPtrNN(schema)},
+		{goExpr: recv + ".ni", lean: "curNI", kd: kStr},
+		{goExpr: recv + ".electionID", lean: "curElec", kd: kPtr("Uint128")},
+	}
+}
+
+func builderMethod(recvType, recv, schema, goName, lean string, params []param) fnSpec {
+	return fnSpec{
+		file: "fluent/fluent.go", goName: goName, recvType: "*" + recvType, callAs: "-", leanName: lean,
+		params: params, goRets: "*" + recvType, rets: []string{},
+		state:   entryBuilderState(recv, schema),
+		typeMap: builderTypeMap, builder: true, oneofView: "EntryB",
+	}
+}
+
+func builderProto(recvType, recv, schema, goName, lean string) fnSpec {
+	sp := builderMethod(recvType, recv, schema, goName, lean, nil)
+	if goName == "OpProto" {
+		sp.goRets, sp.rets = "*spb.AFTOperation, error", []string{"ptr:AFTOperationB", "err"}
+	} else {
+		sp.goRets, sp.rets = "*spb.AFTEntry, error", []string{"ptr:AFTEntryB", "err"}
+	}
+	return sp
+}
+
+func w64(n string) param { return param{goName: n, goType: "uint64", lean: n, kd: kU64} }
+
+func topBuilderSpecs(recvType, schema, pfx string) []fnSpec {
+	u64 := func(n string) param { return param{goName: n, goType: "uint64", lean: n, kd: kNat} }
+	str := func(n string) param { return param{goName: n, goType: "string", lean: n, kd: kStr} }
+	return []fnSpec{
+		builderMethod(recvType, "i", schema, "WithPrefix", pfx+"WithPrefix", []param{str("p")}),
+		builderMethod(recvType, "i", schema, "WithNetworkInstance", pfx+"WithNetworkInstance", []param{str("n")}),
+		builderMethod(recvType, "i", schema, "WithNextHopGroup", pfx+"WithNextHopGroup", []param{u64("u")}),
+		builderMethod(recvType, "i", schema, "WithNextHopGroupNetworkInstance", pfx+"WithNextHopGroupNetworkInstance", []param{str("n")}),
+		// the bytes are carried as they are (an opaque value)
+		builderMethod(recvType, "i", schema, "WithMetadata", pfx+"WithMetadata", []param{{goName: "b", goType: "[]byte", lean: "b", kd: kStr}}),
+		builderMethod(recvType, "i", schema, "WithElectionID", pfx+"WithElectionID", []param{w64("low"), w64("high")}),
+		builderProto(recvType, "i", schema, "OpProto", pfx+"OpProto"),
+		builderProto(recvType, "i", schema, "EntryProto", pfx+"EntryProto"),
+	}
+}
+
+var fluentBuilderSpecs = func() []fnSpec {
+	u64 := func(n string) param { return param{goName: n, goType: "uint64", lean: n, kd: kNat} }
+	str := func(n string) param { return param{goName: n, goType: "string", lean: n, kd: kStr} }
+	var out []fnSpec
+	out = append(out, topBuilderSpecs("ipv4Entry", "Ipv4KeyB", "fl4")...)
+	out = append(out, topBuilderSpecs("ipv6Entry", "Ipv6KeyB", "fl6")...)
+	out = append(out,
+		builderMethod("labelEntry", "l", "LabelKeyB", "WithLabel", "flLWithLabel", []param{{goName: "v", goType: "uint32", lean: "v", kd: kNat}}),
+		builderMethod("labelEntry", "l", "LabelKeyB", "WithNetworkInstance", "flLWithNetworkInstance", []param{str("ni")}),
+		builderMethod("labelEntry", "l", "LabelKeyB", "WithNextHopGroup", "flLWithNextHopGroup", []param{u64("id")}),
+		builderMethod("labelEntry", "l", "LabelKeyB", "WithNextHopGroupNetworkInstance", "flLWithNextHopGroupNetworkInstance", []param{str("ni")}),
+		builderMethod("labelEntry", "l", "LabelKeyB", "WithPoppedLabelStack", "flLWithPoppedLabelStack", []param{{goName: "labels", goType: "...uint32", lean: "labels", kd: kind{k: "list", s: "Nat", elemNN: true}}}),
+		builderProto("labelEntry", "l", "LabelKeyB", "OpProto", "flLOpProto"),
+		builderProto("labelEntry", "l", "LabelKeyB", "EntryProto", "flLEntryProto"),
+		builderMethod("nextHopGroupEntry", "n", "NhgKeyB", "WithID", "flGWithID", []param{u64("i")}),
+		builderMethod("nextHopGroupEntry", "n", "NhgKeyB", "WithNetworkInstance", "flGWithNetworkInstance", []param{str("ni")}),
+		builderMethod("nextHopGroupEntry", "n", "NhgKeyB", "WithBackupNHG", "flGWithBackupNHG", []param{u64("id")}),
+		builderMethod("nextHopGroupEntry", "n", "NhgKeyB", "AddNextHop", "flGAddNextHop", []param{u64("index"), u64("weight")}),
+		builderMethod("nextHopGroupEntry", "n", "NhgKeyB", "WithElectionID", "flGWithElectionID", []param{w64("low"), w64("high")}),
+		builderProto("nextHopGroupEntry", "n", "NhgKeyB", "OpProto", "flGOpProto"),
+		builderProto("nextHopGroupEntry", "n", "NhgKeyB", "EntryProto", "flGEntryProto"),
+	)
+	// the Get and Flush request builders: the request is the whole state
+	req := func(recvType, schema, goName, lean string, params []param) fnSpec {
+		return fnSpec{
+			file: "fluent/fluent.go", goName: goName, recvType: "*" + recvType, callAs: "-", leanName: lean,
+			params: params, goRets: "*" + recvType, rets: []string{},
+			state:   []stateField{{goExpr: "g.pb", lean: "pb", kd: kPtrNN(schema)}},
+			typeMap: map[string]string{"GetRequest": "GetRequestG", "FlushRequest": "FlushRequestB"}, builder: true,
+		}
+	}
+	out = append(out,
+		req("gRIBIGet", "GetRequestG", "AllNetworkInstances", "flGetAllNetworkInstances", nil),
+		req("gRIBIGet", "GetRequestG", "WithNetworkInstance", "flGetWithNetworkInstance", []param{str("ni")}),
+		req("gRIBIFlush", "FlushRequestB", "WithElectionID", "flFlushWithElectionID", []param{w64("low"), w64("high")}),
+		req("gRIBIFlush", "FlushRequestB", "WithElectionOverride", "flFlushWithElectionOverride", nil),
+		req("gRIBIFlush", "FlushRequestB", "WithNetworkInstance", "flFlushWithNetworkInstance", []param{str("n")}),
+		req("gRIBIFlush", "FlushRequestB", "WithAllNetworkInstances", "flFlushWithAllNetworkInstances", nil),
+	)
+	for _, c := range [][3]string{{"IPv4Entry", "ipv4Entry", "flNewIPv4Entry"}, {"IPv6Entry", "ipv6Entry", "flNewIPv6Entry"}, {"LabelEntry", "labelEntry", "flNewLabelEntry"}, {"NextHopGroupEntry", "nextHopGroupEntry", "flNewNextHopGroupEntry"}} {
+		out = append(out, fnSpec{file: "fluent/fluent.go", goName: c[0], callAs: "-", leanName: c[2], goRets: "*" + c[1], rets: []string{"ptr:" + c[1]}, typeMap: builderTypeMap})
+	}
+	aft := req("gRIBIGet", "GetRequestG", "WithAFT", "flGetWithAFT", []param{{goName: "a", goType: "AFT", lean: "a", kd: kInt}})
+	aft.constMaps = map[string]string{"aftMap": "aftMap"}
+	out = append(out, aft)
+	return out
+}()
